@@ -65,6 +65,7 @@ def is_prompt(events, w):
 class C09(Prop):
     pid = "C09"
     lean_module = "RxModel.Props.C09"
+    extra_modules = ("RxModel.Props.C09C",)
     design_ref = "DESIGN.md §6 C09"
     rule = ("debounce / throttle (three edge modes) / buffer_with_time / buffer_with_count_and_time over a hot subject "
             "emitting the tagged items 1,2,3,…; (a) prompt unit-step schedules with every gap pattern shorter than, "
